@@ -180,24 +180,19 @@ def run(ctx):
     sizes = []
     for cfg in CONFIGS:
         exact = cfg["method"] == "exact"
-        if thorough:
-            small, depth = (True, 3)
-        else:
-            small, depth = (exact, 2)
-        alpha = alphabet_for(cfg, small)
-        hist.bfs(ctx, alpha, evaluate, depth, extra_case={"cfg": cfg})
+        # exact-method objects cost ~50 ms per query: small alphabet; depth 2 (quick) / 3 (thorough)
+        # expanded-method objects: full alphabet; depth 2 (quick) / 3 (thorough)
+        alpha = alphabet_for(cfg, exact)
+        hist.bfs(ctx, alpha, evaluate, 3 if thorough else 2, extra_case={"cfg": cfg})
         sizes.append(len(alpha))
         nconf += 1
-        if thorough and not exact:
-            # the full alphabet to depth 2 as well (thorough is a superset of quick)
-            hist.bfs(ctx, alphabet_for(cfg, False), evaluate, 2, extra_case={"cfg": cfg})
     ctx.rule = (
         f"{nconf} object configurations (orders (1,0),(2,0),(3,0),(4,0),(2,1),(3,2),(4,2) x exact/expanded x em_running x "
         "POLE/MSBAR, reference inside a patch / on a matching scale / with non-default or default nf, matching ratios "
         "2, 0.5, 1); alphabet = query (scale, nf_to) with scale in {reference, 0.9/1/1.1 x each matching scale, 3.0 and 3.3 "
-        "GeV^2 around m_tau^2} x nf_to in {None,3,4,5,6} (61 letters; exact-method objects and depth 3: 5 scales x "
+        "GeV^2 around m_tau^2} x nf_to in {None,3,4,5,6} (61 letters; exact-method objects: 5 scales x "
         "{None,4,5} = 16 letters) + 'overwrite the previously returned array with NaN'; BFS to depth 2 (quick) / "
-        "depth 3 on the small alphabet plus depth 2 on the full one (thorough), states deduplicated on (memo keys, "
+        "depth 3 (thorough), every explored history closed by a probe repeating its queries; states deduplicated on (memo keys, "
         "memo values, a_ref, last op); non-trivial = a query answered entirely from the memo, or a caller mutation "
         "after a query"
     )
